@@ -215,12 +215,27 @@ def rejected_from(out):
 
 # ------------------------------------------------------------------ traces
 
+class CodePanic(Exception):
+    """The code under test panicked in a call the driver does not wrap: data (a violation), not a tool error."""
+    def __init__(self, args, where):
+        super().__init__(f"panic at {where} in driver {args}")
+        self.driver_args = [str(a) for a in args]
+        self.where = where
+
+
 def run_driver(args, timeout=3600):
     t = time.time()
     try:
         r = subprocess.run([QV] + [str(a) for a in args], capture_output=True, text=True, timeout=timeout)
     except subprocess.TimeoutExpired:
         raise ToolError(f"driver {args} timed out")
+    if r.returncode == 3 and "DRIVER-PANIC at " in r.stderr:
+        # a panic that escaped the driver's own catch_unwind: where was it raised? The harness's own files are
+        # compiled with paths relative to /verif/harness ("src/..."); anything else (/repo/src/..., a crate of the
+        # cargo registry called by it, the standard library) was raised on behalf of the code under test
+        where = r.stderr.split("DRIVER-PANIC at ", 1)[1].strip().splitlines()[0]
+        if where and not where.startswith("src/"):
+            raise CodePanic(args, where)
     if r.returncode != 0:
         raise ToolError(f"driver {args} failed (rc {r.returncode}):\n{r.stderr[-3000:]}")
     log(f"[drive] qv {' '.join(str(a) for a in args)}: {r.stderr.strip().splitlines()[-1] if r.stderr.strip() else ''} ({time.time() - t:.1f}s)")
@@ -560,7 +575,8 @@ def check_C02(res):
     server_stage(res, "resolve", 4 if q else 100, ["C02"])
     server_stage(res, "size", 1 if q else 30, ["C02"])
     server_stage(res, "tsig", 1 if q else 20, ["C02"])
-    return "every response of the total/resolve/size/tsig request families is decoded by Wire!DecodeMessage in TLC"
+    server_stage(res, "huge", 0 if q else 4, ["C02"])      # a 33 KiB TCP response with a name at offset 16384 (thorough: 21 alignments around it)
+    return "every response of the total/resolve/size/tsig request families is decoded by Wire!DecodeMessage in TLC; a 33 KiB TCP response (215 MX records with 62-octet target labels and their addresses) aligned so that a compression target would lie exactly at offset 16384"
 
 
 def check_C03(res):
@@ -576,14 +592,15 @@ def check_C04(res):
     q = res.tier == "quick"
     server_stage(res, "size", 3 if q else 120, ["C04"])
     server_stage(res, "resolve", 3 if q else 60, ["C04"])
-    res.assumptions += ["requests in this check carry no TSIG and RRL is off, so UDP and TCP handling of one request are comparable"]
-    return "catalogs with RRsets of 20-70 records, 200-octet TXT strings, delegations with 4-12 name servers (in-bailiwick and sibling glue), 230-octet names; advertised payload 0..65535, server payload 512..65535; every UDP record carries its TCP twin"
+    server_stage(res, "tsig", 1 if q else 20, ["C04"])     # signed responses: the advertised size swept across the complete signed length, UDP with TCP twin
+    res.assumptions += ["RRL is off, so UDP and TCP handling of one request are comparable; for signed requests the twin is only used when both calls fell into the same second (the responses then differ in nothing but possibly the MAC)"]
+    return "catalogs with RRsets of 20-70 records, 200-octet TXT strings, delegations with 4-12 name servers (in-bailiwick and sibling glue), 230-octet names; advertised payload 0..65535 (also swept across the exact length of the complete response), server payload 512..65535; every UDP record carries its TCP twin; TSIG-signed requests (three keys, five queries) with the advertised size from 8 below to 2 above the complete signed response"
 
 
 def check_C07(res):
     q = res.tier == "quick"
     server_stage(res, "dispatch", 12 if q else 400, ["C07"])
-    return "catalogs with nested loaded/not-yet-loaded/failed entries in classes IN/CH/HS/CLASS65280 (and a root zone); QNAME x QCLASS x QTYPE (incl. AXFR/IXFR/MAILA/MAILB/ANY) x all 16 opcodes"
+    return "catalogs with nested loaded/not-yet-loaded/failed entries in classes IN/CH/HS/CLASS65280 (and a root zone); QNAME x QCLASS x QTYPE (incl. AXFR/IXFR/MAILA/MAILB/ANY) x all 16 opcodes x QDCOUNT 0/1/2; names whose octets end like a zone's name without being below it; the same over a SingleZoneCatalog"
 
 
 def check_C08(res):
@@ -598,6 +615,7 @@ def check_C09(res):
     q = res.tier == "quick"
     server_stage(res, "edns", 6 if q else 300, ["C09"])
     server_stage(res, "mutate", 3 if q else 60, ["C09"])
+    server_stage(res, "size", 1 if q else 20, ["C09"])      # EDNS responses that fill the negotiated size to the octet (the OPT record fits exactly)
     return "0/1/2 OPT records in every section and position, all version/ext-rcode/flag bytes in the TTL, root / non-root / compressed owners, option TLVs valid and truncated, advertised sizes 0..65535, server payload sizes 512..65535"
 
 
@@ -735,13 +753,25 @@ def check_C15(res):
 def check_C12(res):
     q = res.tier == "quick"
     trace_stage(res, ["writer", res.seed, 2500 if q else 80000], "TraceWriter", "writer", ["C12"])
-    return "random sequences of 3-40 writer operations (header setters, questions, RRs and RRsets in all sections with truthful hints, nine RDATA shapes incl. SOA/SRV/CH A/unknown/invalid, set_limit, three compression modes, set_edns, extended RCODEs up to 65535, clear_rrs) on buffers of 40-4096 octets so that truncation is frequent"
+    # (M) the space accounting (cursor / available / limit / reservations for OPT and TSIG) over every operation sequence in
+    # scope; four realistic slips must each violate an invariant; (G) the histories of its state graph on the real Writer
+    if not q:
+        run_mc(res, "MC_WriterSpace/impl", "MC_WriterSpace.tla", "MC_WriterSpace_impl.cfg", workers=8)
+    for v, inv in (("limit_ignores_reserved", "Ordered"), ("edns_no_check", "Ordered"), ("clear_returns_reserved", "ReservedKept"), ("tsig_compressed", "ReservedUsedExactly")):
+        run_mc(res, f"MC_WriterSpace/{v}", "MC_WriterSpace.tla", f"MC_WriterSpace_{v}.cfg", workers=2, expect_violation=inv)
+    hist, nh = graph_histories(res, "MC_WriterSpace/graph", "MC_WriterSpace.tla", "MC_WriterSpace_graph_quick.cfg" if q else "MC_WriterSpace_graph.cfg", stride=6 if q else 25)
+    trace_stage(res, ["writer", "replay", hist], "TraceWriterSpace", "writer/space-replay", ["C12"])
+    os.remove(hist)
+    res.notes["writer/space-replay"]["histories_replayed"] = nh
+    return "(M)+(G) Writer space accounting: every sequence of add_question / add_rr / set_limit / set_edns / set_tsig / clear_rrs / finish over small sizes keeps cursor <= available <= limit <= buffer, keeps reservations, and finishes within the limit using exactly what was reserved; one shortest history per (every k-th) transition of that graph is carried out on the real Writer and each recorded triple, result and final length is the specification's; (V) random sequences of 3-40 writer operations (header setters, questions, RRs and RRsets in all sections with truthful hints, nine RDATA shapes incl. SOA/SRV/CH A/unknown/invalid, set_limit, three compression modes, set_edns, extended RCODEs up to 65535, clear_rrs) on buffers of 40-4096 octets so that truncation is frequent"
 
 
 def check_C13(res):
     q = res.tier == "quick"
     trace_stage(res, ["writer", res.seed + 7, 2500 if q else 80000], "TraceWriter", "writer", ["C13", "C12:undecodable"])
     server_stage(res, "resolve", 2 if q else 40, ["C13"])
+    if not q:
+        server_stage(res, "huge", 4, ["C13"])
     return "the writer sequences of C12 over a name pool with shared suffixes and case variants (every pointer of every finished message is checked), plus all server responses of the resolve profile"
 
 
@@ -881,7 +911,7 @@ def check_C31(res):
     path = tr(f"C31-reload-{res.seed}.ndjson")
     scratch = os.path.join(OUT, "reload")
     t = time.time()
-    r = subprocess.run([sys.executable, os.path.join(ROOT, "tools", "reload_driver.py"), daemon, path, str(res.seed), str(8 if q else 400), scratch],
+    r = subprocess.run([sys.executable, os.path.join(ROOT, "tools", "reload_driver.py"), daemon, path, str(res.seed), str(8 if q else 150), scratch],
                        capture_output=True, text=True, timeout=7200)
     if r.returncode != 0:
         raise ToolError("reload driver failed:\n" + r.stderr[-3000:])
@@ -947,7 +977,14 @@ def main():
             res = Result(a.pid, a.tier, seed)
             if a.tier == "thorough":
                 spec_tests()
-            rule = CHECKS[a.pid](res)
+            try:
+                rule = CHECKS[a.pid](res)
+            except CodePanic as e:
+                # the remaining stages of this check are not run: a violation has been found
+                log(f"[panic] the code under test panicked outside any recorded call: {e.where}")
+                res.violations.append(dict(stage="driver " + " ".join(e.driver_args[:2]), line=0, tags=[a.pid],
+                                           record=dict(out="panic", where=e.where, driver=e.driver_args), header=None))
+                rule = "aborted by a panic of the code under test in the driver process"
             return finish(res, t0, rule=rule or "")
         if a.cmd == "replay":
             return replay(a.path)
